@@ -16,8 +16,11 @@
    exactly MaxUpd answered updates (contents canonical by first use), ended by the
    clean shutdown or by a kill of the idle process.                                *)
 EXTENDS StoreCrash_MC, Json
-VARIABLE h
-gvars == <<vars, h>>
+VARIABLES h,
+          life     \* contents whose move into the store failed during the CURRENT life of the process: the model has no
+                   \* process memory, the code may (caches); kept in the view so that "the same process goes on after
+                   \* the failure" is not merged with "a new process opens the same files"
+gvars == <<vars, h, life>>
 
 COrder == <<"c1", "c2", "c3">>
 Used == { h[i].c : i \in { j \in DOMAIN h : h[j].op = "upd" } }
@@ -27,20 +30,22 @@ Canon(c) == \/ c \in Used
                                         /\ \A j \in 1..(i - 1) : COrder[j] \in Used
 Ev(op, k, c, site, reach) == [op |-> op, k |-> k, c |-> c, site |-> site, reach |-> reach]
 
-GenInit == Init /\ h = <<>>
+GenInit == Init /\ h = <<>> /\ life = {}
 GenNext ==
-    \/ Reopen /\ h' = Append(h, Ev("open", "-", "-", "none", TRUE))
+    \/ Reopen /\ h' = Append(h, Ev("open", "-", "-", "none", TRUE)) /\ life' = {}
     \/ \E k \in Keys, c \in Contents :
-          Canon(c) /\ StageMk(k, c) /\ h' = Append(h, Ev("upd", k, c, "none", TRUE))
-    \/ (StageWrite \/ DoDigest \/ ExistsCheck \/ Move \/ Answer) /\ h' = h
-    \/ \E reach \in BOOLEAN : Record(reach) /\ h' = [h EXCEPT ![Len(h)].reach = reach]
+          Canon(c) /\ StageMk(k, c) /\ h' = Append(h, Ev("upd", k, c, "none", TRUE)) /\ UNCHANGED life
+    \/ (StageWrite \/ DoDigest \/ ExistsCheck \/ Move \/ Answer) /\ h' = h /\ UNCHANGED life
+    \/ \E reach \in BOOLEAN : Record(reach) /\ h' = [h EXCEPT ![Len(h)].reach = reach] /\ UNCHANGED life
     \/ \E s \in AllSites :
-          Crash(s) /\ h' = IF pc = "idle" THEN Append(h, Ev("crash", "-", "-", s, TRUE))
-                           ELSE [h EXCEPT ![Len(h)].site = s]
-    \/ Close /\ h' = Append(h, Ev("close", "-", "-", "none", TRUE))
-    \/ Purge /\ h' = Append(h, Ev("purge", "-", "-", "none", TRUE))
+          /\ Crash(s)
+          /\ h' = (IF pc = "idle" THEN Append(h, Ev("crash", "-", "-", s, TRUE)) ELSE [h EXCEPT ![Len(h)].site = s])
+          /\ UNCHANGED life
+    \/ MoveFails /\ h' = [h EXCEPT ![Len(h)].site = "movefail"] /\ life' = life \cup {uc}
+    \/ Close /\ h' = Append(h, Ev("close", "-", "-", "none", TRUE)) /\ UNCHANGED life
+    \/ Purge /\ h' = Append(h, Ev("purge", "-", "-", "none", TRUE)) /\ UNCHANGED life
 GenSpec == GenInit /\ [][GenNext]_gvars
-View == vars
+View == <<vars, life>>
 
 Interesting == nev' # nev \/ rep' # "none"
 EmitTrans == Interesting => PrintT(<<"CASE", ToJson(h')>>)
